@@ -19,7 +19,7 @@ def sh(cmd, cwd, env=None, timeout=1800):
 
 def main():
     prop, x = sys.argv[1], sys.argv[2]
-    wt = f"/tmp/wt_{prop}"
+    wt = sys.argv[3] if len(sys.argv) > 3 else f"/tmp/wt_{prop}"
     seed = f"{wt}/_seed/{x}"
     env = dict(os.environ, PYTHONPATH=wt, MPLBACKEND="Agg")
     sh("git checkout -- lightworks", wt)
